@@ -591,6 +591,24 @@ pub fn op_ae(a: &[&str]) -> String {
                 }
             }
         }
+        [seq, toks @ ..] if *seq == "seq" => {
+            // one thread, in order; a key is also used to encrypt in between (anything cached per key is exercised)
+            toks.iter().map(|tok| {
+                let Some((k, c)) = tok.split_once(':') else { return "bad".to_string() };
+                let (Some(k), Some(c)) = (unhex(k), unhex(c)) else { return "bad".to_string() };
+                let Ok(k) = AeKey::try_from(k.as_slice()) else { return "bad".to_string() };
+                let probe = k.encrypt(5);
+                if k.decrypt(&probe) != Some(5) { return "variant-mismatch:own-ciphertext".to_string() }
+                match AeCiphertext::from_bytes(&c) {
+                    None => "none".to_string(),
+                    Some(c) => match (c.decrypt(&k), k.decrypt(&c)) {
+                        (a, b) if a != b => "variant-mismatch".to_string(),
+                        (Some(x), _) => format!("some:{}", x),
+                        (None, _) => "none".to_string(),
+                    },
+                }
+            }).collect::<Vec<_>>().join("|")
+        }
         _ => "bad-op".into(),
     }
 }
